@@ -11,9 +11,13 @@ import (
 	"bytes"
 	"errors"
 	"fmt"
+	"math/rand"
+	"runtime"
 	"sort"
 	"strings"
 	"sync"
+	"sync/atomic"
+	"time"
 
 	"github.com/xuperchain/xupercore/lib/storage/kvdb"
 )
@@ -63,6 +67,56 @@ var (
 	worlds = map[string]*World{}
 	nextID int
 )
+
+// Storage latency jitter: every read, iterator creation and write of a world is a point where
+// a real node would wait for the disk, i.e. an existing suspension point between the check and
+// the act of the code above. With jitter on, such a point yields the processor or sleeps a few
+// microseconds with a small probability, which widens the set of interleavings concurrent
+// workloads reach (C12) without touching the code under test. The decisions come from one
+// seeded generator, so a run's jitter pattern is a function of the seed and the arrival order.
+var (
+	jitterOn  int32
+	jitterMu  sync.Mutex
+	jitterRng *rand.Rand
+	jitterPer int // 1 in jitterPer points is disturbed
+	jitterHit int64
+)
+
+// SetJitter switches latency jitter on (per > 0: one in `per` storage operations) or off (per = 0).
+func SetJitter(seed int64, per int) {
+	jitterMu.Lock()
+	defer jitterMu.Unlock()
+	if per <= 0 {
+		atomic.StoreInt32(&jitterOn, 0)
+		return
+	}
+	jitterRng = rand.New(rand.NewSource(seed))
+	jitterPer = per
+	atomic.StoreInt32(&jitterOn, 1)
+}
+
+// JitterHits is the number of storage operations that were disturbed so far.
+func JitterHits() int64 { return atomic.LoadInt64(&jitterHit) }
+
+func jitter() {
+	if atomic.LoadInt32(&jitterOn) == 0 {
+		return
+	}
+	jitterMu.Lock()
+	x := jitterRng.Intn(jitterPer * 4)
+	jitterMu.Unlock()
+	switch {
+	case x == 0:
+		time.Sleep(time.Duration(20+x%7*30) * time.Microsecond)
+	case x == 1:
+		time.Sleep(200 * time.Microsecond)
+	case x < 4:
+		runtime.Gosched()
+	default:
+		return
+	}
+	atomic.AddInt64(&jitterHit, 1)
+}
 
 func init() {
 	kvdb.Register(EngineName, func(p *kvdb.KVParameter) (kvdb.Database, error) {
@@ -306,6 +360,7 @@ func (d *db) Delete(key []byte) error {
 }
 
 func (d *db) Get(key []byte) ([]byte, error) {
+	jitter()
 	d.w.mu.Lock()
 	defer d.w.mu.Unlock()
 	v, ok := d.w.stores[d.rel].data[string(key)]
@@ -350,6 +405,7 @@ func prefixLimit(prefix []byte) []byte {
 }
 
 func (d *db) iter(start, limit []byte) kvdb.Iterator {
+	jitter()
 	d.w.mu.Lock()
 	defer d.w.mu.Unlock()
 	data := d.w.stores[d.rel].data
@@ -451,5 +507,8 @@ func (b *batch) Reset() {
 // Write applies the batch atomically. Like goleveldb, the batch keeps its
 // content afterwards (a second Write replays it).
 func (b *batch) Write() error {
-	return b.d.w.apply(b.d.rel, true, b.ops)
+	jitter()
+	err := b.d.w.apply(b.d.rel, true, b.ops)
+	jitter()
+	return err
 }
